@@ -76,6 +76,41 @@ theorem window_bytes (A w w' B : List Bool) (hw : w.length = 5) (hw' : w'.length
   · simp [bitsToBytes_length, List.length_take, hw, hw']
   · simp only [bitsToBytes_length, List.length_take]; omega
 
+theorem bitsToBytes_takeN (n : Nat) (hn : n % 8 = 0) (R : List Bool) :
+    bitsToBytes R = bitsToBytes (R.take n) ++ bitsToBytes (R.drop n) := by
+  by_cases h : n ≤ R.length
+  · conv => lhs; rw [← List.take_append_drop n R]
+    exact bitsToBytes_append _ _ (by rw [List.length_take, Nat.min_eq_left h]; exact hn)
+  · have h1 : R.take n = R := List.take_of_length_le (by omega)
+    have h2 : R.drop n = [] := List.drop_of_length_le (by omega)
+    rw [h1, h2]; simp [bitsToBytes]
+
+/-- **A window of up to ten bits at any position lies in at most three consecutive octets**
+(or in the dropped tail): two bit strings that differ only in one such window pack into octet
+strings that differ only in a window of at most three octets. -/
+theorem window_bytes10 (A w w' B : List Bool) (hww : w.length = w'.length) (hw : w.length ≤ 10) :
+    ∃ pre mid mid' post, bitsToBytes (A ++ w ++ B) = pre ++ mid ++ post ∧
+      bitsToBytes (A ++ w' ++ B) = pre ++ mid' ++ post ∧ mid.length = mid'.length ∧ mid.length ≤ 3 := by
+  let n8 := 8 * (A.length / 8)
+  have hn8 : n8 ≤ A.length := Nat.mul_div_le _ _
+  have hsplit : ∀ u : List Bool, A ++ u ++ B = A.take n8 ++ (A.drop n8 ++ u ++ B) := by
+    intro u; simp [← List.append_assoc, List.take_append_drop]
+  have htl : (A.take n8).length % 8 = 0 := by
+    rw [List.length_take, Nat.min_eq_left hn8]; simp [n8]
+  have hal : (A.drop n8).length < 8 := by
+    rw [List.length_drop]; simp only [n8]; omega
+  have hdrop : ∀ u : List Bool, u.length = w.length →
+      (A.drop n8 ++ u ++ B).drop 24 = B.drop (24 - ((A.drop n8).length + w.length)) := by
+    intro u hu
+    rw [List.drop_append, List.drop_of_length_le (by simp [hu]; omega)]
+    simp [hu]
+  refine ⟨bitsToBytes (A.take n8), bitsToBytes ((A.drop n8 ++ w ++ B).take 24),
+    bitsToBytes ((A.drop n8 ++ w' ++ B).take 24), bitsToBytes (B.drop (24 - ((A.drop n8).length + w.length))), ?_, ?_, ?_, ?_⟩
+  · rw [hsplit w, bitsToBytes_append _ _ htl, bitsToBytes_takeN 24 (by decide) (A.drop n8 ++ w ++ B), hdrop w rfl]; simp only [List.append_assoc]
+  · rw [hsplit w', bitsToBytes_append _ _ htl, bitsToBytes_takeN 24 (by decide) (A.drop n8 ++ w' ++ B), hdrop w' hww.symm]; simp only [List.append_assoc]
+  · simp [bitsToBytes_length, List.length_take, hww]
+  · simp only [bitsToBytes_length, List.length_take]; omega
+
 theorem xorBytes_xorBytes : ∀ (a b : Bytes), a.length = b.length → xorBytes a (xorBytes a b) = b
   | [], [], _ => rfl
   | x :: xs, y :: ys, h => by
